@@ -1,0 +1,14 @@
+//go:build verif
+
+package parser
+
+import (
+	"github.com/DDP-Projekt/Kompilierer/src/ast"
+	"github.com/DDP-Projekt/Kompilierer/src/token"
+)
+
+// exports of unexported helpers for external verification tooling (build tag verif only)
+
+func VerifTokenEqual(t1, t2 *token.Token) bool { return tokenEqual(t1, t2) }
+func VerifTokenLess(t1, t2 *token.Token) bool  { return tokenLess(t1, t2) }
+func VerifSortAliases(aliases []ast.Alias)     { sortAliases(aliases) }
